@@ -255,6 +255,69 @@ func c14(c *ctx) {
 		}
 	})
 	r.Check(okLookup, "R3/ValidateByzantineEvidence/lookup-in-derived", c.p.Pos(validateBE.Pos()), "looks every listed signer up in the locally derived list", "ValidateByzantineEvidence no longer looks the listed signers up in the list derived by ProcessDSE")
+	// direction of the height justification: the heights the PROPOSAL claims are searched in the heights the evidence
+	// proves (the element of the derived list), never the other way round — otherwise a proposer pads the claim
+	instrs(validateBE, func(in ssa.Instruction) {
+		cc := callCommon(in)
+		if cc == nil || len(cc.Args) < 2 {
+			return
+		}
+		if sc := cc.StaticCallee(); sc == nil || origin(sc).Name() != "ContainsFunc" || !strings.Contains(c.p.path(cc.Args[0]), ".ProcessDSE(") {
+			return
+		}
+		mc, ok := unwrapClosure(cc.Args[1])
+		if !ok {
+			return
+		}
+		pred, _ := mc.Fn.(*ssa.Function)
+		if pred == nil || len(pred.Params) == 0 {
+			return
+		}
+		good, badHay := 0, ""
+		var scan func(f *ssa.Function, elem *ssa.Parameter, d int)
+		scan = func(f *ssa.Function, elem *ssa.Parameter, d int) {
+			if d > 3 {
+				return
+			}
+			for _, g := range withAnons(f) {
+				instrs(g, func(in2 ssa.Instruction) {
+					c2 := callCommon(in2)
+					if c2 == nil || c2.IsInvoke() {
+						return
+					}
+					callee := c2.StaticCallee()
+					if callee == nil {
+						return
+					}
+					if n := origin(callee).Name(); origin(callee).Pkg != nil && origin(callee).Pkg.Pkg.Path() == "slices" && (n == "Contains" || n == "ContainsFunc" || n == "Index" || n == "IndexFunc") && len(c2.Args) > 0 {
+						if rootParam(c2.Args[0]) == elem {
+							good++
+						} else if rp := rootParam(c2.Args[0]); rp != nil || rootIsFreeVar(c2.Args[0]) {
+							badHay = c.p.path(c2.Args[0])
+						}
+						return
+					}
+					// the element handed on to a helper / bound method
+					if inCanopyRaw(callee) && len(callee.Blocks) > 0 {
+						for i, a := range c2.Args {
+							if a == ssa.Value(elem) && i < len(callee.Params) {
+								scan(callee, callee.Params[i], d+1)
+							}
+						}
+					}
+				})
+			}
+		}
+		scan(pred, pred.Params[0], 0)
+		switch {
+		case badHay != "":
+			r.Bad("R3/ValidateByzantineEvidence/height-direction", c.p.Pos(in.Pos()), "the heights are searched in "+badHay+", which is not the locally derived entry (the element of the list ProcessDSE returned): the claimed heights must each be found among the proven ones, not the proven among the claimed — a proposer could pad its slash list with heights no evidence proves")
+		case good > 0:
+			r.OK("R3/ValidateByzantineEvidence/height-direction", c.p.Pos(in.Pos()), "claimed heights are searched in the derived entry's heights")
+		default:
+			r.OK("R3/ValidateByzantineEvidence/height-direction", c.p.Pos(in.Pos()), "height justification not expressed with slices.Contains: direction not decided by this rule")
+		}
+	})
 
 	// ------------------------------------------------------------------ R4
 	r.Rule("R4", "PAIR", "once per (address,height): HandleDoubleSigners appends to the slash list only after IsValidDoubleSigner true and IndexDoubleSigner ok for the same (address,height); the false edge aborts; index writer and reader use the same key", 3)
@@ -343,4 +406,73 @@ func c14(c *ctx) {
 			r.Check(a == "$1.Address" && ch == "$2", "R5/AddSlash/key", c.p.Pos(cs.Pos()), "tracker updated for (validator, chain)", "AddSlash records ("+a+", "+ch+"), expected (validator.Address, chainId): the cap would be tracked under another key than it is read")
 		}
 	}
+}
+
+// unwrapClosure finds the closure behind a function value (through interface/type changes).
+func unwrapClosure(v ssa.Value) (*ssa.MakeClosure, bool) {
+	for i := 0; i < 4; i++ {
+		switch x := v.(type) {
+		case *ssa.MakeClosure:
+			return x, true
+		case *ssa.ChangeType:
+			v = x.X
+		case *ssa.MakeInterface:
+			v = x.X
+		default:
+			return nil, false
+		}
+	}
+	return nil, false
+}
+
+// rootParam follows field selections, loads, slices and indexes back to the parameter a value is read from.
+func rootParam(v ssa.Value) *ssa.Parameter {
+	for i := 0; i < 12; i++ {
+		switch x := v.(type) {
+		case *ssa.Parameter:
+			return x
+		case *ssa.FieldAddr:
+			v = x.X
+		case *ssa.Field:
+			v = x.X
+		case *ssa.UnOp:
+			v = x.X
+		case *ssa.Slice:
+			v = x.X
+		case *ssa.IndexAddr:
+			v = x.X
+		case *ssa.Call:
+			// getters: x.GetHeights()
+			if sc := x.Common().StaticCallee(); sc != nil && strings.HasPrefix(sc.Name(), "Get") && len(x.Common().Args) == 1 {
+				v = x.Common().Args[0]
+				continue
+			}
+			return nil
+		default:
+			return nil
+		}
+	}
+	return nil
+}
+
+func rootIsFreeVar(v ssa.Value) bool {
+	for i := 0; i < 12; i++ {
+		switch x := v.(type) {
+		case *ssa.FreeVar:
+			return true
+		case *ssa.FieldAddr:
+			v = x.X
+		case *ssa.Field:
+			v = x.X
+		case *ssa.UnOp:
+			v = x.X
+		case *ssa.Slice:
+			v = x.X
+		case *ssa.IndexAddr:
+			v = x.X
+		default:
+			return false
+		}
+	}
+	return false
 }
